@@ -105,6 +105,26 @@ class _Normalise(ast.NodeTransformer):
         # N7: documented aliases of the torch API
         if isinstance(n.func, ast.Attribute) and isinstance(n.func.value, ast.Name) and n.func.value.id == "torch" and n.func.attr == "concatenate":
             n.func.attr = "cat"
+        d = None
+        try:
+            d = ast.unparse(n.func)
+        except Exception:
+            pass
+        # default keyword arguments of the torch API written out: torch.cat(x, dim=0) == torch.cat(x)
+        if d in ("torch.cat", "torch.stack") and len(n.args) == 1:
+            n.keywords = [k for k in n.keywords if not (k.arg in ("dim", "axis") and isinstance(k.value, ast.Constant) and k.value.value == 0)]
+        # x.to(torch.<dtype>) == x.type(torch.<dtype>) ; x.expand(y.shape) == x.expand_as(y)
+        if isinstance(n.func, ast.Attribute) and n.func.attr == "to" and len(n.args) == 1 and not n.keywords and \
+                isinstance(n.args[0], ast.Attribute) and isinstance(n.args[0].value, ast.Name) and n.args[0].value.id == "torch" and \
+                n.args[0].attr in ("int64", "int32", "int8", "float32", "float64", "bool", "long", "float", "uint8", "int16", "float16"):
+            n.func.attr = "type"
+        if isinstance(n.func, ast.Attribute) and n.func.attr == "expand" and len(n.args) == 1 and not n.keywords and \
+                isinstance(n.args[0], ast.Attribute) and n.args[0].attr == "shape":
+            n.func.attr = "expand_as"
+            n.args = [n.args[0].value]
+        # torch.zeros(a, b) == torch.zeros((a, b))   (sizes given as separate positional arguments)
+        if d in ("torch.zeros", "torch.ones", "torch.empty") and len(n.args) >= 2 and not any(isinstance(a, ast.Starred) for a in n.args):
+            n.args = [ast.copy_location(ast.Tuple(elts=list(n.args), ctx=ast.Load()), n)]
         if isinstance(n.func, ast.Attribute) and n.func.attr == "clone" and not n.args and not n.keywords and \
                 not (isinstance(n.func.value, ast.Name) and n.func.value.id == "torch"):
             n = ast.copy_location(ast.Call(func=ast.Attribute(value=ast.Name(id="torch", ctx=ast.Load()), attr="clone", ctx=ast.Load()),
@@ -115,6 +135,17 @@ class _Normalise(ast.NodeTransformer):
             if len(n.args) == 2 and not n.keywords and isinstance(n.args[0], ast.Constant) and n.args[0].value == 0 \
                     and not isinstance(n.args[0].value, bool):
                 n.args = [n.args[1]]
+        return n
+
+    def visit_Subscript(self, n):
+        self.generic_visit(n)
+        # x[None, :, :] == x[None]  (trailing full slices select everything)
+        if isinstance(n.slice, ast.Tuple) and len(n.slice.elts) >= 2:
+            e = list(n.slice.elts)
+            while len(e) > 1 and isinstance(e[-1], ast.Slice) and e[-1].lower is None and e[-1].upper is None and e[-1].step is None:
+                e.pop()
+            if len(e) != len(n.slice.elts):
+                n.slice = e[0] if len(e) == 1 else ast.copy_location(ast.Tuple(elts=e, ctx=ast.Load()), n.slice)
         return n
 
     def visit_BinOp(self, n):
@@ -277,17 +308,26 @@ class Aligner:
     def rs(self, n):
         return shape(n, self.rl)
 
-    def variants(self, cs, kind):
+    def variants(self, cs, kind, rs=()):
         """behaviour-preserving re-shapings of a loop body / function body: the tail `if C: BODY` as guard clause, and a guard clause
         `if T: continue|return` (no else) followed by REST as `if not T: REST`"""
         out = []
         exit_ = ast.Continue if kind == "loop" else ast.Return
-        if cs and isinstance(cs[-1], ast.If) and not cs[-1].orelse and cs[-1].body and \
+        # a re-shaping is only considered when the reference block HAS the target shape: rules written for the reference must not be shown a
+        # guard clause (or a nested tail-if) that neither the reference nor the analysed code contains
+        ref_has_guard = any(isinstance(r, ast.If) and not r.orelse and len(r.body) == 1 and isinstance(r.body[0], exit_) for r in rs)
+        ref_has_tail_if = bool(rs) and isinstance(rs[-1], ast.If) and not rs[-1].orelse and rs[-1].body and \
+            not isinstance(rs[-1].body[-1], (ast.Return, ast.Raise, ast.Continue, ast.Break))
+        if not ref_has_guard:
+            cs_guardable = False
+        else:
+            cs_guardable = True
+        if cs_guardable and cs and isinstance(cs[-1], ast.If) and not cs[-1].orelse and cs[-1].body and \
                 not isinstance(cs[-1].body[-1], (ast.Return, ast.Raise, ast.Continue, ast.Break)):
             s = cs[-1]
             g = ast.copy_location(ast.If(test=_negate(s.test), body=[ast.copy_location(exit_(), s)], orelse=[]), s)
             out.append(("guard@%d" % s.lineno, cs[:-1] + [g] + list(s.body)))
-        for k, s in enumerate(cs[:-1]):
+        for k, s in enumerate(cs[:-1] if ref_has_tail_if else []):
             if isinstance(s, ast.If) and not s.orelse and len(s.body) == 1 and isinstance(s.body[0], exit_) and \
                     (kind == "loop" or s.body[0].value is None):
                 rest = cs[k + 1:]
@@ -302,7 +342,7 @@ class Aligner:
                                                [shape(x, self.rl, shallow=True) for x in rs], autojunk=False).ratio()
             base = ratio(cs)
             best = None
-            for label, v in self.variants(cs, kind):
+            for label, v in self.variants(cs, kind, rs):
                 r_ = ratio(v)
                 if r_ > base + 1e-9 and (best is None or r_ > best[0]):
                     best = (r_, label, v)
@@ -836,6 +876,37 @@ def canonicalise_module(short, tree):
                 return False
         return True
     helpers = {n.name: n for n in tree.body if isinstance(n, ast.FunctionDef) and n.name not in ref and _plain(n)} if ref else {}
+    # `from torch.nn.functional import conv1d` ; conv1d(..)  ->  torch.nn.functional.conv1d(..)   (only names the reference module does not import)
+    ref_imported = set()
+    try:
+        rp = os.path.join(REFERENCE_DIR, "tangermeme", *short.split(".")) + ".py"
+        for n_ in ast.parse(open(rp).read()).body:
+            if isinstance(n_, ast.ImportFrom):
+                ref_imported.update(a.asname or a.name for a in n_.names)
+    except OSError:
+        pass
+    dotted_of = {}
+    for n_ in tree.body:
+        if isinstance(n_, ast.ImportFrom) and n_.module and n_.module.split(".")[0] in ("torch", "numpy", "math") and not n_.level:
+            for a in n_.names:
+                nm = a.asname or a.name
+                if nm not in ref_imported and a.name != "*":
+                    dotted_of[nm] = n_.module + "." + a.name
+    if dotted_of:
+        class _Dot(ast.NodeTransformer):
+            def visit_Name(self, n):
+                if n.id in dotted_of and isinstance(n.ctx, ast.Load):
+                    parts = dotted_of[n.id].split(".")
+                    e = ast.Name(id=parts[0], ctx=ast.Load())
+                    for p_ in parts[1:]:
+                        e = ast.Attribute(value=e, attr=p_, ctx=ast.Load())
+                    return ast.copy_location(e, n)
+                return n
+        for n_ in tree.body:
+            if isinstance(n_, ast.FunctionDef) and not any(isinstance(x, ast.Name) and isinstance(x.ctx, ast.Store) and x.id in dotted_of for x in ast.walk(n_)) \
+                    and not (set(dotted_of) & params_of(n_)):
+                _Dot().visit(n_)
+                ast.fix_missing_locations(n_)
     counter = [0]
     origin = {}
     for n in tree.body:
@@ -866,6 +937,8 @@ def _flat(func):
         for s in stmts:
             if isinstance(s, ast.Expr) and isinstance(s.value, ast.Constant):
                 continue
+            if isinstance(s, ast.Pass):
+                continue
             if isinstance(s, (ast.For, ast.While, ast.If, ast.With, ast.Try)):
                 c = copy.copy(s)
                 for f in ("body", "orelse", "finalbody", "handlers"):
@@ -884,7 +957,7 @@ def _flat(func):
 
 
 def edit_kind(cfunc, rfunc):
-    """'identical' | 'first-order' (only deletions, or exactly one replaced statement) | 'rewritten' ; with (deleted, inserted, replaced)"""
+    """'identical' | 'first-order' (nothing inserted, at most one statement replaced, any number deleted) | 'rewritten' ; with (deleted, inserted, replaced)"""
     a, b = _flat(rfunc), _flat(cfunc)
     if a == b and ast.dump(cfunc.args) == ast.dump(rfunc.args) and [ast.dump(d) for d in cfunc.decorator_list] == [ast.dump(d) for d in rfunc.decorator_list]:
         return "identical", (0, 0, 0)
@@ -899,7 +972,7 @@ def edit_kind(cfunc, rfunc):
             rep += k
             dele += (i2 - i1) - k
             ins += (j2 - j1) - k
-    if ins == 0 and (rep == 0 or (rep == 1 and dele == 0)):
+    if ins == 0 and rep <= 1:
         return "first-order", (dele, ins, rep)
     return "rewritten", (dele, ins, rep)
 
